@@ -468,4 +468,54 @@ def _locals_defined_in(block: ast.AST) -> set[str]:
     return out
 
 
-RULES = [r1_per_step_extraction, r2_bucket_wiring, r3_labels, r4_image_dtype, r5_pass_through, r6_debug_observation_only]
+def _is_copying(e: ast.expr) -> bool:
+    """Expression that allocates a new array: np.array(x) / x.astype(...) / x.copy() / np.copy(x)."""
+    if isinstance(e, ast.Call):
+        n = call_name(e)
+        if n in ("np.array", "numpy.array", "np.copy", "numpy.copy"):
+            c = kw(e, "copy")
+            return c is None or (isinstance(c, ast.Constant) and c.value is True)
+        if isinstance(e.func, ast.Attribute) and e.func.attr in ("astype", "copy"):
+            c = kw(e, "copy")
+            return c is None or (isinstance(c, ast.Constant) and c.value is True)
+    return False
+
+
+def r7_slices_do_not_alias(ctx):
+    """A stored slice must not share memory with storage the next step mutates: each container's to_xarray either copies the array (np.array / astype / copy) or the container's empty() rebinds _array to a freshly allocated array (never zeroes it in place)."""
+    specs = [
+        ("pyxel.data_structure.array:ArrayBase", "pyxel.data_structure.array:ArrayBase.to_xarray", None),
+        ("pyxel.data_structure.charge:Charge", "pyxel.data_structure.charge:Charge.to_xarray", None),
+        ("pyxel.data_structure.photon:Photon", "pyxel.data_structure.photon:Photon.to_xarray", None),
+    ]
+    for clsq, fq, _ in specs:
+        f = ctx.func(fq)
+        ci = ctx.cls(clsq)
+        das = [c for c in calls_in(f.node) if call_name(c).endswith("DataArray") and c.args and kw(c, "dims") is not None and norm(kw(c, "dims")) in ("['y', 'x']", "('y', 'x')")]
+        datas = [expand(f, c.args[0]) for c in das]
+        # 3-D photon branch: data_3d = self._array.astype(...)
+        for st, val in local_defs(f, "data_3d"):
+            if val is not None:
+                datas.append(val)
+        if not datas:
+            ctx.fail(fq + "#alias", "data expression of the returned DataArray not found", where=f, node=f.node)
+            continue
+        copies = all(_is_copying(d) for d in datas)
+        empty = ctx.repo.find_member(ci, "empty")
+        rebinding = False
+        inplace = []
+        if empty is not None:
+            sts = [st for st, t in stores(empty.node, lambda t: dotted(t) == "self._array")]
+            rebinding = bool(sts) and all(not enclosing_tests(st) for st in sts)
+            inplace = [c for c in calls_in(empty.node) if dotted(c.func) in ("self._array.fill",)] + [st for st, t in stores(empty.node, lambda t: isinstance(t, ast.Subscript) and dotted(t.value) == "self._array")] + [st for st in walk_ordered(empty.node) if isinstance(st, ast.AugAssign) and dotted(st.target) in ("self._array", "self.array")]
+        ok = copies or (rebinding and not inplace)
+        if copies:
+            why = "to_xarray copies the array"
+        elif ok:
+            why = "to_xarray shares the array, but empty() rebinds _array to a fresh allocation before the next step writes"
+        else:
+            why = "to_xarray hands out the container's own array and empty() re-uses that array in place: the slice recorded for a step is overwritten by the next step"
+        ctx.check(ok, fq + "#alias", why, where=f, node=(inplace[0] if inplace and not ok else das[0] if das else f.node), facts={"copies": copies, "empty_rebinds": rebinding, "empty_in_place": len(inplace)})
+
+
+RULES = [r7_slices_do_not_alias, r1_per_step_extraction, r2_bucket_wiring, r3_labels, r4_image_dtype, r5_pass_through, r6_debug_observation_only]
